@@ -143,8 +143,9 @@ impl<'a> UserModel<'a> {
         let [selected_row, selected_column, _, _] = view.range;
         let mut max_row = selected_row;
         let mut max_column = selected_column;
+        // the area the cells come from: on the source sheet, which need not be the selected one
         let area = &Area {
-            sheet,
+            sheet: source_sheet,
             row: source_first_row,
             column: source_first_column,
             width: source_last_column - source_first_column + 1,
@@ -204,7 +205,7 @@ impl<'a> UserModel<'a> {
 
                 // remain in the copied area
                 let source = &CellReferenceIndex {
-                    sheet,
+                    sheet: source_sheet,
                     column: *source_column,
                     row: *source_row,
                 };
